@@ -39,6 +39,19 @@ The translator fails closed.  THE SUBSET (anything else => `Unsupported` => the 
                parameter or an alias of one is not owned, so a dropped defensive copy leaves the subset instead of being
                modelled away.  `None` (the narrowed `none` branch) is vacuously owned.
   numbers      float -> Rat (exact), `len` / indices read from `argwhere` -> Nat, other ints -> Int.
+  Python vs NumPy scalars (used by the `chordseg` configuration, harness/translate/chordseg.py): every scalar carries a
+               static flag — NumPy scalar (an item of an array, `.max()`, `.sum()`, `np.sum`, anything computed from one),
+               Python number (literals, `len`, `float(x)`, float parameters), or unknown (a loop accumulator that is one
+               before and the other after the first iteration).  `a / b`: both Python -> `divPy` (ZeroDivisionError);
+               one NumPy -> `Segment.npDiv` (never raises; `Mir.Segment.Num` = finite | nan | +-inf); unknown -> outside
+               the subset.  `array / scalar` is NumPy division entry-wise (`divVecNp`), `array * array` / `np.sum` /
+               `a - x` / builtin `min(x, y)` on such values are `mulVecNum` / `numSum` / `numRSub` / `pyMinNum`.
+  also         `x op= e` on a numeric local; `warnings.warn(<literal>)` (skipped: no effect on the result); `m1 & m2` on
+               masks; `np.hstack([a, v, b])`; `np.diff(v)`; `iv.flatten()`; `iv[:-1, 1]`, `iv[1:, 0]`; `mask.sum()`;
+               calls of `util.validate_intervals` from another module (bound to the definition generated from util.py);
+               configured externs (`encode_many` -> the hand model); `a, b, c = <call>`; locals initialised to `None` that
+               hold the previous row of a loop (`rt != prev_rt`, `(st != prev_st).any()`); a list of `[start, end]` rows
+               built by `.append([s, e])` / `rows[-1][-1] = e` and turned into an array by `np.array(rows)`.
 
 `python harness/translate/utilint.py [repo]` prints the generated file.
 """
